@@ -99,3 +99,46 @@ Definition xmr_accepted_is_canonical :=
 Definition xmr_decode_err_family :=
   decode_err_family xmr_langs xmr_word_nums xmr_word_nums_chk xmr_words_num
     xmr_n_pos xmr_n_cube xmr_langs_ok xmr_nums_spec xmr_chk_spec.
+
+(* ---------------------------------------------------------------- Algorand *)
+From BU Require Import Model.AlgorandMnemonic Lemmas.AlgorandMnemonic Lemmas.MnemConstsOkB39.
+
+Definition algo_encode sha := AlgorandMnemonic.encode algo_wl algo_cklen algo_entropy_bit_lens algo_word_bits sha.
+Definition algo_decode sha := AlgorandMnemonic.decode algo_wl algo_word_nums algo_cklen algo_word_bits sha.
+Definition algo_checksum_idx sha := AlgorandMnemonic.checksum_idx algo_cklen algo_word_bits sha.
+
+Section C17Algorand.
+  Variable sha : list N -> list N.
+  Hypothesis sha_len : forall x, length (sha x) = 32%nat.
+  Hypothesis sha_ok : forall x, bytes_ok (sha x).
+
+  Definition algo_dec_enc :=
+    AlgorandMnemonic.dec_enc algo_wl algo_word_nums algo_cklen algo_entropy_bit_lens algo_word_bits sha
+      (proj1 algo_wl_ok) (proj2 algo_wl_ok) algo_nums_eq algo_cklen_eq algo_ent_eq algo_bits_eq sha_len sha_ok.
+  Definition algo_accepted_is_canonical :=
+    AlgorandMnemonic.accepted_is_canonical algo_wl algo_word_nums algo_cklen algo_entropy_bit_lens algo_word_bits sha
+      (proj1 algo_wl_ok) (proj2 algo_wl_ok) algo_nums_eq algo_cklen_eq algo_ent_eq algo_bits_eq sha_len sha_ok.
+  Definition algo_accepts_iff :=
+    AlgorandMnemonic.accepts_iff algo_wl algo_word_nums algo_cklen algo_entropy_bit_lens algo_word_bits sha
+      (proj1 algo_wl_ok) (proj2 algo_wl_ok) algo_nums_eq algo_cklen_eq algo_ent_eq algo_bits_eq sha_len sha_ok.
+  Definition algo_decode_err_family :=
+    AlgorandMnemonic.decode_err_family algo_wl algo_word_nums algo_cklen algo_entropy_bit_lens algo_word_bits sha
+      (proj1 algo_wl_ok) (proj2 algo_wl_ok) algo_nums_eq algo_cklen_eq algo_ent_eq algo_bits_eq sha_len sha_ok.
+  Definition algo_f9_family :=
+    AlgorandMnemonic.f9_family algo_wl algo_word_nums algo_cklen algo_entropy_bit_lens algo_word_bits sha
+      (proj1 algo_wl_ok) (proj2 algo_wl_ok) algo_nums_eq algo_cklen_eq algo_ent_eq algo_bits_eq sha_len sha_ok.
+
+  (* a phrase the code as it stands accepts although it is not the encoding of what it decodes to *)
+  Lemma algo_canonical_refuted :
+    exists ws b, algo_decode sha false ws = Ok b /\ algo_encode sha b <> Ok ws /\
+                 algo_decode sha true ws = Err ValueError.
+  Proof.
+    destruct (algo_f9_family (repeat 0 32) 1) as (pre & w23 & wc & i23 & w23' & E & _ & _ & _ & _ & Ne & D0 & D1).
+    - apply bytes_ok_repeat0.
+    - reflexivity.
+    - lia.
+    - exists (pre ++ [w23'; wc]), (repeat 0 32). split; [exact D0|]. split; [|exact D1].
+      unfold algo_encode. rewrite E. intros Q. inversion Q as [Q']. apply app_inv_head in Q'.
+      inversion Q'. congruence.
+  Qed.
+End C17Algorand.
